@@ -20,6 +20,7 @@ var registry = map[string]entry{
 	"C03": {"exploration", props.C03},
 	"C05": {"exploration", props.C05},
 	"C06": {"exploration", props.C06},
+	"C08": {"exploration", props.C08},
 	"C09": {"exploration", props.C09},
 	"C10": {"fault_enumeration", props.C10},
 	"C12": {"exploration", props.C12},
